@@ -132,7 +132,11 @@ impl RK23 {
         let error_exponent = -1.0 / 3.0;
 
         // Maximum step size
-        let hmax = self.max_step.map(|h| h.abs()).unwrap_or((xend - x).abs());
+        let mut hmax = self.max_step.map(|h| h.abs()).unwrap_or((xend - x).abs());
+        // Never larger than the interval: keeps the initial-step probe inside [x0, xend]
+        if hmax > (xend - x).abs() {
+            hmax = (xend - x).abs();
+        }
 
         // --- Declarations ---
         let n = y.len();
